@@ -186,7 +186,40 @@ def r4_range_ends(c, facts):
                     c.bad(R, 'range-ends-recomputed', 'utf8_range_to_position post-processes the converted positions (relative arithmetic on line/character)')
 
 
+def r5_same_text(c, facts):
+    """a span is converted with the text of the document it belongs to"""
+    import mirflow as MF
+    R = c.rule('C16.R5', 'SAME-TEXT: a span is converted to positions with the text of the span\'s own document')
+    n = 0
+    for fn in sorted(facts.fns.values(), key=lambda f: f.qname):
+        if fn.crate != 'oal_client' or not fn.mir or fn.qname.startswith('oal_client::lsp::unicode::'):
+            continue
+        sites = P.call_blocks(fn, 'unicode::utf8_range_to_position', 'unicode::utf8_to_position')
+        if not sites:
+            continue
+        idx = MF.defs_index(fn)
+        for b, t in sites:
+            n += 1
+            tx = MF.slice_back(fn, t['args'][0]['l'], idx)
+            rg = MF.slice_back(fn, t['args'][1]['l'], idx)
+            tnames = {P.strip(x).split('::')[-1] for x, _, _ in tx['calls']}
+            rnames = {P.strip(x).split('::')[-1] for x, _, _ in rg['calls']}
+            crosses = bool(rnames & {'node', 'definition'}) and any(P.strip(x).endswith('External::node') for x, _, _ in rg['calls'])
+            own = 'locator' in tnames and 'read_file' in tnames
+            inst = {'fn': fn.qname, 'line': t['ln'], 'text_from': sorted(tnames & {'read_file', 'locator', 'span'}), 'span_may_be_in_another_module': crosses}
+            if 'read_file' not in tnames and 1 not in tx['args'] and 2 not in tx['args']:
+                c.bad(R, '%s:text-not-workspace-copy' % fn.qname, '%s converts a span against a text that is not the workspace copy of a document' % fn.qname, **inst)
+            elif crosses and not own:
+                c.bad(R, '%s:span-of-other-module-with-request-text' % fn.qname, '%s converts the span of a definition that may live in another module against the text of the requesting document' % fn.qname, **inst)
+            else:
+                c.ok(R, inst)
+    c.floor(R, 'span-to-position conversions in the LSP', n, 3)
+    import c15
+    c15.changes_in_order(c, facts, R)
+
+
 def run(c, facts):
+    c.run(r5_same_text, facts)
     c.run(lambda c: run_units(c, facts))
     c.run(r3_clamp, facts)
     c.run(r4_range_ends, facts)
